@@ -1,6 +1,8 @@
 import Syzgy.Lemmas.Scan
 import Syzgy.Lemmas.Refine
 import Syzgy.Lemmas.Reopen
+import Syzgy.Lemmas.CrashColl
+import Syzgy.Lemmas.Opts
 /-!
 # C02 — durability across close / reopen
 -/
@@ -72,5 +74,36 @@ theorem reopen_collection_after_any_history (ops : List DocOp) (c : Coll) (segs 
 /-- the index rebuild at open never fails on a collection that satisfies the invariant -/
 theorem rebuild_never_fails (c : Coll) (segs : List Seg) (docs : DocStore) (h : CRep2 c segs docs) :
     rebuildCheck c.sf c.cfg = .ok () := rebuildCheck_ok c segs docs h
+
+/-- the options record the constructor writes decodes (field extractor of the model) to the options it was
+    written from, for every collection name without a double quote -/
+theorem options_record_round_trip (name : Bytes) (c : Cfg) (hn : (34 : UInt8) ∉ name) :
+    decodeOpts (encodeOpts name c) = some c :=
+  decodeOpts_encodeOpts name c hn
+
+/-- **a created collection reopens identically, whatever is passed when reopening** — no oracle left: create a
+    collection with supported options, run any history of document operations (within the format's
+    limits), then open the file again in any mode that keeps it (`CreateIfNotExists`, `ReadWrite`,
+    `ReadOnly`) with *any* options `opts'` (none, conflicting ones): the constructor succeeds, changes no
+    byte, the collection has the options it was **created** with, every document reads back as the
+    specification says, and the ids are the specification's ids -/
+theorem created_collection_reopens_identically (name : Bytes) (opts : Cfg) (hq : Supported opts.quant)
+    (hm : opts.metric = 0 ∨ opts.metric = 1) (hlen : (encodeOpts name opts).length < 1000000000)
+    (hname : (34 : UInt8) ∉ name) (ops : List DocOp) :
+    ∃ c, newCollection none name opts .createIfNotExists = .ok c ∧
+      (DocFitsAll2 c (fun _ => none) ops → ∀ (opts' : Cfg) (mode : FileMode), mode ≠ .createAndOverwrite →
+        ∃ c', newCollection (some (ops.foldl applyDocOp c).sf.file) name opts' mode = .ok c' ∧ c'.cfg = opts ∧
+          c'.sf.file = (ops.foldl applyDocOp c).sf.file ∧
+          (∀ id, getDocument c' id = match ops.foldl docSpec (fun _ => none) id with
+            | none => .err "record not found"
+            | some d => .ok d) ∧
+          (∀ id, id ∈ getAllIDs c' ↔ ops.foldl docSpec (fun _ => none) id ≠ none)) := by
+  obtain ⟨c, segs, h1, h2, h3, _, h5⟩ := new_collection_inv name opts hq hm hlen
+  refine ⟨c, h1, ?_⟩
+  intro hf opts' mode hmode
+  obtain ⟨c', e1, e2, e3, e4, e5⟩ := reopen_after_doc_history ops c segs _ h3 hf name opts' mode hmode
+    (fun b _ => decodeOpts b) { id := 0, data := encodeOpts name opts } [] h5
+    (by rw [h2]; exact decodeOpts_encodeOpts name opts hname) (by rw [h2]; exact hm)
+  exact ⟨c', e1, by rw [e2, h2], e3, e4, e5⟩
 
 end Syzgy.C02
